@@ -1,0 +1,36 @@
+// SPDX-FileCopyrightText: 2023 The Pion community <https://pion.ly>
+// SPDX-License-Identifier: MIT
+
+//go:build verif
+
+package vnet
+
+// Machine-checked contracts for /verif (govc).  Comment-only.
+
+//@ arith int
+
+// ---- ghost call protocol of NIC.onInboundChunk: a log of (receiver, chunk) pairs, one entry per call.
+//@ ghost global fwdN mathint
+//@ ghost global fwdNIC map[mathint]mathint
+//@ ghost global fwdChunk map[mathint]mathint
+
+//@ func (n NIC) onInboundChunk(c Chunk)
+//@   modifies fwdN, fwdNIC, fwdChunk
+//@   ensures fwdN == old(fwdN) + 1 && fwdNIC[old(fwdN)] == ref(n) && fwdChunk[old(fwdN)] == ref(c)
+//@   ensures forall k mathint :: {fwdNIC[k]} k < old(fwdN) ==> fwdNIC[k] == old(fwdNIC[k]) && fwdChunk[k] == old(fwdChunk[k])
+
+// ---- loss filter (C16)
+//@ func NewLossFilter(nic NIC, chance int) (f *LossFilter, err error)
+//@   ensures [new] err == nil && f != nil && f.chance == chance && f.NIC == nic
+
+//@ func (f *LossFilter) onInboundChunk(c Chunk)
+//@   requires f.NIC != nil
+//@   modifies randLast, fwdN, fwdNIC, fwdChunk
+//@   ensures [range] 0 <= randLast && randLast < 100
+//@   ensures [forward] randLast >= f.chance ==> fwdN == old(fwdN) + 1 && fwdNIC[old(fwdN)] == ref(f.NIC) && fwdChunk[old(fwdN)] == ref(c)
+//@   ensures [drop] randLast < f.chance ==> fwdN == old(fwdN)
+//@   ensures [never] f.chance <= 0 ==> fwdN == old(fwdN) + 1
+//@   ensures [always] f.chance >= 100 ==> fwdN == old(fwdN)
+//@   ensures [log] forall k mathint :: {fwdNIC[k]} k < old(fwdN) ==> fwdNIC[k] == old(fwdNIC[k]) && fwdChunk[k] == old(fwdChunk[k])
+
+//@ property C16: NewLossFilter, LossFilter.onInboundChunk
